@@ -63,6 +63,12 @@ LeafTwin = type('Leaf', (Other,), {})
 
 
 
+class EmptyOther(Other):
+    """a failure whose truth value is false (an error collection that happens to be empty)"""
+    def __len__(self):
+        return 0
+
+
 class Bucket(type):
     """a metaclass that hashes all its classes alike (and all sets of them with it): equal
     hashes are no reason to confuse two different sets of types"""
@@ -318,7 +324,7 @@ def run_case(case):
                                   'in order' % raised_text})
     # ---- the same failure objects may occur more than once in one tree (a failure that is
     # re-raised and collected again): every occurrence is a leaf of the flattened result ----
-    shared_leaf = Other('shared')
+    shared_leaf = (EmptyOther if case['index'] % 2 else Other)('shared')
     # (a leaf is whatever is not a Concurrent - also an error that carries sub-errors of its own
     # in attributes that happen to be named like those of a group)
     shared_leaf.children = (KeyError('sub-error'), IndexError('sub-error'))
